@@ -120,3 +120,14 @@ func genPayloadBytes(t *rapid.T, n int, label string) []byte {
 	copy(b, shaped)
 	return b
 }
+
+// appendJunk appends to a slice the library returned to the caller: if the
+// result has spare capacity this writes into it, which a caller may do with a
+// slice it owns. Memory the library still uses (other results, internal state)
+// must not sit there.
+func appendJunk(b []byte) {
+	if b == nil {
+		return
+	}
+	_ = append(b, 0x5A, 0xA5, 0x5A, 0xA5, 0x5A, 0xA5, 0x5A, 0xA5, 0x5A, 0xA5, 0x5A, 0xA5, 0x5A, 0xA5, 0x5A, 0xA5)
+}
